@@ -1,12 +1,14 @@
 import Cirbo.Proofs.Pattern
 import Cirbo.Proofs.Synth
+import Cirbo.Proofs.MinSteps
 /-!
 # C04 — SAT-based subcircuit minimisation returns an equivalent, not larger circuit
 
 -- OBLIGATION: c04_leaf_patterns
 -- OBLIGATION: c04_eval_pattern_is_bitwise_evaluation
 -- OBLIGATION: c04_synthesised_cone_agrees
--- PARTIAL: proved: the pattern primitives of the cone simulation (leaf patterns enumerate all leaf assignments; eval_pattern is the gate's Boolean function bit by bit, for every supported type incl. n-ary gates) and — through C06 — that any cone returned by exact synthesis agrees with the requested table on every entry that is not a don't-care, with exactly size-1 gates of the basis. NOT proved (decided on every run by the search over the real minimize_subcircuits with admissible cut families, all bases and parameter settings, truth-table / interface / size comparison and enable_validation): soundness of the don't-care extraction over reachable leaf vectors, of the trivial-output shortcut, of the splice through replace_subcircuit (modelled and compared in C19), and of the driver loop over node states. The algorithm depends on Python set iteration order; it is not modelled as a whole. One open known finding (dead logic reading an improved cone) is listed in known_findings.json.
+-- OBLIGATION: c04_improvement_steps_preserve_function
+-- PARTIAL: proved: the splice loop, abstractly — ANY finite sequence of accepted improvements (each a replace_subcircuit by a subcircuit that agrees with the cone it replaces on every value combination that occurs; that agreement is what the pattern simulation over all input assignments plus exact synthesis deliver) leaves the circuit well formed, with the same inputs position by position and the same output values on every input assignment (c04_improvement_steps_preserve_function, through the C19 theorem for replace_subcircuit); the pattern primitives of the cone simulation (leaf patterns enumerate all leaf assignments; eval_pattern is the gate's Boolean function bit by bit, for every supported type incl. n-ary gates) and — through C06 — that any cone returned by exact synthesis agrees with the requested table on every entry that is not a don't-care, with exactly size-1 gates of the basis. NOT proved (decided on every run by the search over the real minimize_subcircuits with admissible cut families, all bases and parameter settings, truth-table / interface / size comparison and enable_validation): soundness of the don't-care extraction over reachable leaf vectors, of the trivial-output shortcut, of the splice through replace_subcircuit (modelled and compared in C19), and of the driver loop over node states. The algorithm depends on Python set iteration order; it is not modelled as a whole. One open known finding (dead logic reading an improved cone) is listed in known_findings.json.
 -/
 namespace Cirbo
 open Pattern Synth
@@ -36,6 +38,21 @@ example : (evalPattern 2 .AND [10, 12]).toOption = some 8 ∧ (evalPattern 2 .NA
 
 #print axioms c04_leaf_patterns
 #print axioms c04_eval_pattern_is_bitwise_evaluation
+/-- **the improvement loop preserves the function.** `Steps c ss c'`: the improvements `ss` were applied one
+after the other by `replace_subcircuit`, each replacement well formed with valid arities and agreeing
+with the cone it replaces (`SliceAgrees`: on every valuation of the current circuit, fed the values at
+the cone's leaves it produces the values at the cone's outputs; no cone output is a circuit input).
+Then the final circuit is well formed and `Refines` the original: the same inputs position by position
+(up to relabelling) and, for every valuation of the original, a valuation of the result under the
+corresponding assignment with the same output values — the same truth table, the same number and order
+of inputs and outputs. The splices of `minimize_subcircuits` are such steps (cut choice, synthesis and its failures only decide
+WHICH are taken; the harness records every splice of every run, checks these hypotheses on it and
+compares it with this model). The driver's other kind of step — merging, in place, a cone output whose
+pattern equals a leaf's or another output's — is not covered by this theorem. -/
+theorem c04_improvement_steps_preserve_function {c c' : Circuit} {ss : List Step} (hw : WFS c)
+    (h : Steps c ss c') : WFS c' ∧ Refines c c' := steps_refine hw h
+
 #print axioms c04_synthesised_cone_agrees
+#print axioms c04_improvement_steps_preserve_function
 
 end Cirbo
